@@ -4600,12 +4600,12 @@ example : (match execStmts sampleF sampleG 10
   `gen_correct_cmds_partial`; the environment relation `EnvRel R.entry …` now also says that `opt_data` is the JSON
   image of the entry data (`gen_correct_body_partial`: `R.entry = env.vars`).  Props/C04e adds `CallRelE` (the
   function throws only where `call` does not render) for the converse.  `CallRel` is the statement of this very
-  theorem one template down; it is NOT discharged here (no induction over the call depth: the whole-program theorem,
-  with the template header, is outside).  The harness property C04sem instantiates the oracle with the run of the
-  callee's translated body and compares with otto.
+  theorem one template down; Props/C04e discharges both by induction over the call depth for the oracle that RUNS the
+  callee's translated body (`genCall` / `refCall`, `calls_correct`, `gen_correct_program_partial`).  The harness
+  property C04sem instantiates the oracle the same way (`genBody`) and compares with otto.
 
   OUTSIDE (no theorem at the command level): `range` with a computed step, `{call}` to a `{deltemplate}` (`{delcall}`),
-  the discharge of `CallRel` (above), `{msg}` (placeholders, plural), `{css}`, `{log}`, `{debugger}`, `$ij`, globals, print directives with
+  `refCall` against Spec/Eval.renderTmpl itself (needs `ref_le_spec` for two different `call`s), `{msg}` (placeholders, plural), `{css}`, `{log}`, `{debugger}`, `$ij`, globals, print directives with
   non-literal arguments, the template header (`opt_data = opt_data || {}`, `return output`) and
   the file level (namespaces, goog.provide / ES6 imports — covered for SHAPE by C14, not for meaning). -/
 
